@@ -132,20 +132,28 @@ def forbidden_tokens():
     return hits
 
 
-def property_theorems(prop_id):
-    """the obligations of a property = every `theorem` in Skc/Props/<id>.lean"""
-    p = os.path.join(LEAN, "Skc", "Props", f"{prop_id}.lean")
-    src = strip_comments(open(p).read())
+def module_path(module):
+    return os.path.join(LEAN, *module.split(".")) + ".lean"
+
+
+def module_theorems(module):
+    """the obligations of a module = every `theorem` in its source file"""
+    src = strip_comments(open(module_path(module)).read())
     ns = re.search(r"^namespace\s+(\S+)", src, re.M)
     pre = (ns.group(1) + ".") if ns else ""
     return [pre + t for t in _THM.findall(src)]
 
 
-def audit(prop_id, theorems):
-    """`#print axioms` of every property theorem; returns {theorem: [axioms] | None}"""
-    tmp = os.path.join(LEAN, ".lake", f"Audit_{prop_id}_{os.getpid()}.lean")
+def property_theorems(prop_id):
+    return module_theorems(f"Skc.Props.{prop_id}")
+
+
+def audit(modules, theorems, tag="x"):
+    """`#print axioms` of every theorem; returns {theorem: [axioms] | None}"""
+    tmp = os.path.join(LEAN, ".lake", f"Audit_{tag}_{os.getpid()}.lean")
     with open(tmp, "w") as f:
-        f.write(f"import Skc.Props.{prop_id}\n")
+        for m in modules:
+            f.write(f"import {m}\n")
         for t in theorems:
             f.write(f"#print axioms {t}\n")
     try:
@@ -304,44 +312,56 @@ class Check:
         self.exhaustive = None
 
     # ---- Lean side -------------------------------------------------------------------------
-    def lean(self, extra_targets=(), pre_build=None):
+    def lean(self, extra_modules=(), pre_build=None, skip_modules=None):
         """build the property module + driver and audit the property theorems.
+        extra_modules: further modules whose theorems are obligations of this property (the L1
+        layer over translator output); each is built on its own so that a failure is attributed.
+        skip_modules: {module: reason} — not built, not counted (translator says unsupported).
         pre_build: callable run under the lock before building (e.g. the translator)."""
         mod = f"Skc.Props.{self.prop}"
+        skip_modules = skip_modules or {}
         self.checker_cmd = (
-            f"cd lean && lake build {mod} skcdrv && lake env lean <#print axioms of every theorem in "
-            f"Skc/Props/{self.prop}.lean>; grep for sorry/admit/axiom/native_decide/bv_decide/implemented_by/unsafe"
+            f"cd lean && lake build {' '.join([mod] + list(extra_modules))} skcdrv && lake env lean <#print axioms of every "
+            f"theorem of these modules>; grep for sorry/admit/axiom/native_decide/bv_decide/implemented_by/unsafe"
         )
         with LeanLock():
             if pre_build:
                 pre_build()
-            self.obligations = property_theorems(self.prop)
             ok_drv, log_drv = lake_build(["skcdrv"])
             if not ok_drv:
                 raise Infra("model driver does not build:\n" + log_drv[-2000:])
-            ok, log = lake_build([mod] + list(extra_targets))
-            self.notes["lean_build_ok"] = ok
-            if not ok:
-                self.notes["lean_build_log_tail"] = log[-3000:]
-                # which theorems failed?  every theorem of the module is undischarged, we name the
-                # ones the log mentions
-                named = [t for t in self.obligations if t.split(".")[-1] in log]
-                for t in self.obligations:
-                    self.broken.append((t, "module does not build" + (" (error mentions it)" if t in named else "")))
-                return False
-            ax, out = audit(self.prop, self.obligations)
+            built = []
+            for m in [mod] + list(extra_modules):
+                if m in skip_modules:
+                    self.notes.setdefault("skipped_modules", {})[m] = skip_modules[m]
+                    continue
+                ths = module_theorems(m)
+                self.obligations += ths
+                ok, log = lake_build([m])
+                if ok:
+                    built.append((m, ths))
+                else:
+                    self.notes.setdefault("lean_build_log_tail", "")
+                    self.notes["lean_build_log_tail"] += f"\n== {m}\n" + log[-2500:]
+                    for t in ths:
+                        self.broken.append((t, f"module {m} does not build"))
+            self.notes["lean_build_ok"] = len(built) == len([mod] + [m for m in extra_modules if m not in skip_modules])
+            ax = {}
+            if built:
+                ax, out = audit([m for m, _ in built], [t for _, ths in built for t in ths], tag=self.prop)
         hits = forbidden_tokens()
         self.notes["forbidden_tokens"] = hits
-        for t in self.obligations:
-            a = ax.get(t)
-            if a is None:
-                self.broken.append((t, "no #print axioms output"))
-            elif not set(a) <= ALLOWED_AXIOMS:
-                self.broken.append((t, "axioms " + ",".join(sorted(set(a) - ALLOWED_AXIOMS))))
-            elif hits:
-                self.broken.append((t, "forbidden token in development: " + hits[0]))
-            else:
-                self.discharged.append(t)
+        for m, ths in built:
+            for t in ths:
+                a = ax.get(t)
+                if a is None:
+                    self.broken.append((t, "no #print axioms output"))
+                elif not set(a) <= ALLOWED_AXIOMS:
+                    self.broken.append((t, "axioms " + ",".join(sorted(set(a) - ALLOWED_AXIOMS))))
+                elif hits:
+                    self.broken.append((t, "forbidden token in development: " + hits[0]))
+                else:
+                    self.discharged.append(t)
         self.notes["axioms"] = {t: ax.get(t) for t in self.obligations}
         return not self.broken
 
